@@ -93,10 +93,20 @@ def run(tier, seed, replay=None):
         R = minimal_ranks(N, rng, M)
         mk = (lambda RR: solverkit.rand_ttm_float(rng, M, N, RR, dt)) if ttm else (lambda RR: solverkit.rand_tt_float(rng, N, RR, dt))
         x = mk(R).round(1e-14)
+        tiny = rng.random() < 0.15
+        if tiny:                 # minimal ranks with one singular value ~1e-13 (relative) at every bond: nothing may be truncated away from the base point
+            sz_ = [n * (M[k] if ttm else 1) for k, n in enumerate(N)]
+            x0_ = mk([1] + [max(1, r - 1) for r in R[1:-1]] + [1]).round(1e-14)
+            R1_ = [int(r) + 1 for r in x0_.R[1:-1]]
+            caps_ = [min(int(np.prod(sz_[:k])), int(np.prod(sz_[k:]))) for k in range(1, d)]
+            if all(r <= c_ for r, c_ in zip(R1_, caps_)) and all(R1_[k] <= (R1_[k - 1] if k else 1) * sz_[k] and (R1_[k] <= (R1_[k + 1] if k + 1 < len(R1_) else 1) * sz_[k + 1]) for k in range(len(R1_))):
+                x = x0_ + 1e-13 * float(x0_.norm()) * (lambda t: t * (1.0 / float(t.norm())))(mk([1] * (d + 1)))
+            else:
+                tiny = False
         R = [int(r) for r in x.R]
         z = mk(solverkit.ranks(rng, d, rng.choice([1, 2, 4]))); w = mk(solverkit.ranks(rng, d, rng.choice([1, 3])))
         desc = {"ttm": ttm, "N": N, "M": M, "R_x": R, "R_z": [int(r) for r in z.R], "interior_rank_1": any(r == 1 for r in R[1:-1])}
-        key = ("ttm" if ttm else "tt") + (" interior-rank-1" if desc["interior_rank_1"] else "")
+        key = ("ttm" if ttm else "tt") + (" interior-rank-1" if desc["interior_rank_1"] else "") + (" tiny-singular-value" if tiny else "")
         dist[key] = dist.get(key, 0) + 1
         if i % 12 == 0 and len(samples) < 5: samples.append(desc)
         snaps = {"x": history.Snap(x), "z": history.Snap(z), "w": history.Snap(w)}
@@ -131,7 +141,14 @@ def run(tier, seed, replay=None):
             f = (lambda y: cw * f0(y)) if cw != 1.0 else f0
             egrad = cw * egrad if cw != 1.0 else egrad
             dist["objective weight %g" % cw] = dist.get("objective weight %g" % cw, 0) + 1
-            g = RG(x.clone(), f)
+            g = RG(x, f)                                  # on the base point object itself (it must come back untouched) ...
+            tgt2 = mk(solverkit.ranks(rng, d, 2))
+            f2 = (lambda y: torchtt.dot(y, tgt2)) if not ttm else (lambda y: (y * tgt2).sum())
+            g2 = RG(x, f2)                                # ... and a second objective at the SAME base point object
+            ref2 = P(x, tgt2)
+            if nrm(g2 - ref2) > 1e-8 * max(nrm(ref2), 1e-300) + 1e-10: fails.append("a second riemannian_gradient at the same base point object differs from P(Euclidean gradient): rel %.3g" % (nrm(g2 - ref2) / max(nrm(ref2), 1e-300)))
+            bad2 = solverkit.intact(snaps, [x, z, w])
+            if bad2: fails.append("operand modified by riemannian_gradient: " + bad2[0])
             ref = P(x, egrad)
             if nrm(g - ref) > 1e-8 * max(nrm(ref), 1e-300) + 1e-10 * cw: fails.append("riemannian_gradient differs from P(Euclidean gradient) [%s]: rel %.3g" % (fam, nrm(g - ref) / max(nrm(ref), 1e-300)))
             if any(int(a_) > 2 * int(b_) for a_, b_ in zip(g.R, x.R)): fails.append("ranks of the gradient exceed twice those of x")
